@@ -186,6 +186,15 @@ func subC14Query(arg string) string {
 				c, _, _ := hj.Hijack()
 				c.Close()
 				return
+			case "fetch-stalls-mid-body":
+				// headers and the first bytes of a longer body, then nothing: the connection stays open
+				hj, _ := w.(http.Hijacker)
+				c, buf, _ := hj.Hijack()
+				fmt.Fprintf(buf, "HTTP/1.1 200 OK\r\nContent-Type: application/json\r\nContent-Length: 4000\r\n\r\n{\"a\":{\"b\":")
+				buf.Flush()
+				time.Sleep(3 * time.Minute)
+				c.Close()
+				return
 			}
 			w.Write([]byte(`{"a":{"b":[1,2,3]},"s":"x"}`))
 		})}
@@ -297,7 +306,13 @@ func subC14Query(arg string) string {
 	case <-time.After(dl + 5*time.Second):
 		return "handler-hang:" + summarise(leftovers())
 	}
-	if l := settle(1500 * time.Millisecond); len(l) > 0 {
+	settleFor := 1500 * time.Millisecond
+	if fault == "fetch-stalls-mid-body" {
+		// the fetch is an opaque call with its own budget of 60 s: the pipeline's goroutines must be
+		// gone when that has passed
+		settleFor = 64 * time.Second
+	}
+	if l := settle(settleFor); len(l) > 0 {
 		return "leak:" + summarise(l)
 	}
 	return "ok"
@@ -544,6 +559,11 @@ func genC14(rng *hx.Rng, tier string, w *hx.Writer) error {
 				seed++
 				add("query-pipeline", "c14-query", fmt.Sprintf("n=3,ptype=%d,deadline=%d,fault=%s,seed=%d", int(onchain.TrafficUserQuery), dl, f, seed), 30*time.Second, "f:"+f, fmt.Sprintf("deadline:%d", dl))
 			}
+		}
+		if tier == "thorough" && rep == 0 {
+			// the data source sends its headers and stalls inside the body (takes the fetch's own 60 s)
+			seed++
+			add("query-pipeline", "c14-query", fmt.Sprintf("n=3,ptype=%d,deadline=300,fault=fetch-stalls-mid-body,seed=%d", int(onchain.TrafficUserQuery), seed), 110*time.Second, "f:fetch-stalls-mid-body", "deadline:300")
 		}
 	}
 	// key generation
